@@ -146,6 +146,7 @@ def units():
 
 
 META = dict(
+    technique='CBMC 6.11 function contracts (dfcc): cursor discipline and byte contents at ghost positions for reader/writers; generic stream operators against recording interface models',
     level="proof",
     level_text="BufferReader::read/end/getView, FixedBufferWriter::write/reserve/available/capacity and WriteSizeCalculator::write are extracted from /repo and proved against contracts written from the statement: an access of `size` bytes is accepted exactly when size <= size()-cursor (stated without cursor+size, so wrap-around of the sum is on the implementation), otherwise it throws std::runtime_error, changes nothing, and no byte outside the buffer is addressed (memcpy's range precondition is an obligation at every call; buffers have symbolic length up to 10^6). The generic stream operators (POD, string, AbstractArray, vector with loop contracts) are proved against interface models of WriteStream::write / ReadStream::read that record every call: each value is emitted / consumed as exactly the byte counts and in the order the matching reader / writer uses, so the write and read sides and WriteSizeCalculator agree on the byte count.",
     level_note="Byte CONTENTS are not tracked (memcpy / stream fidelity assumed), so 'yields equal values' is reduced to: same sequence of (address, size) chunks on both sides, prefix = element count. std::vector / std::string / std::shared_ptr are reference models (lib/stdlib.py); allocation never fails; the two virtual stream operations are interface models with the caller-side range obligation checked.",
